@@ -29,7 +29,7 @@ func TestC09Reg_SharedBatchClosedOnce(t *testing.T) {
 		if e := holder1.Close(); e != nil {
 			t.Fatal(e)
 		}
-		other := db.NewBatch() // another goroutine's store takes a batch from the pool (possibly the object just released)
+		other := db.NewBatch()              // another goroutine's store takes a batch from the pool (possibly the object just released)
 		if e := holder2.Close(); e != nil { // the stale second Close
 			t.Fatal(e)
 		}
